@@ -350,6 +350,14 @@ func checkC02(r *core.Run) {
 		{"scheme-part-after-empty-action", `<a href="{{range $.L}}{{end}}java` + S + `">x</a>`, []string{"script:alert(1)"}, false},
 		{"scheme-part-after-empty-action", `<a href="{{if false}}` + S + `{{end}}java` + S + `">x</a>`, []string{"x", "script:alert(1)"}, false},
 		{"scheme-part-after-empty-action", `<img src="` + S + `jav&#97;` + S + `">`, []string{"", "script:alert(1)"}, false},
+		// self-closing syntax and type attributes of script / style elements
+		{"self-closing-raw-text-element", `<script/>` + S + `</script>`, []string{c02Marker}, false},
+		{"self-closing-raw-text-element", `<script src="/a.js"/><p>` + S + `</p><script>init()</script>`, []string{c02Marker}, false},
+		{"self-closing-raw-text-element", `<style media="print"/>` + S + `</style>`, []string{c02Marker}, false},
+		{"script-type-attribute", `<script type="text/template">` + S + `</script>`, []string{c02Marker}, false},
+		{"script-type-attribute", `<script type="text/javascript" type="text/plain">` + S + `</script>`, []string{c02Marker}, false},
+		{"script-type-attribute", `<script type="module">` + S + `</script>`, []string{c02Marker}, false},
+		{"script-type-attribute", `{{define "hp"}}{{.}}{{end}}<script type="text/plain">{{template "hp" $.P0}}</script><script>{{template "hp" $.P1}}</script>`, []string{"x", c02Marker}, false},
 		// markup declarations that a tokenizer turns into comments
 		{"cdata-section-in-html", `<p><![CDATA[` + S + `]]></p>`, nil, false},
 		{"cdata-section-in-html", `<![CDATA[` + S + `]]>x`, nil, false},
